@@ -174,8 +174,17 @@ def nontrivial(c: Case) -> bool:
 
 
 def run(tier: str, rng: random.Random, proof_ok: bool) -> dict:
-    return run_families("C06", cases(tier, rng), rng, oracle, nontrivial)
+    from .hist import odd_equality_violation
+    rep = run_families("C06", cases(tier, rng), rng, oracle, nontrivial)
+    oe = odd_equality_violation("C06")     # both entry points, on values whose __eq__ is unusual
+    if oe:
+        rep["violations"].append(oe)
+    return rep
 
 
 def replay(path: str) -> int:
-    return generic_replay(path, oracle)
+    import json
+    from .hist import replay_special
+    rc = json.load(open(path)).get("replay_case")
+    r = replay_special(rc, "C06") if isinstance(rc, dict) else None
+    return r if r is not None else generic_replay(path, oracle)
